@@ -93,6 +93,9 @@ func Bubble(t *testing.T, f func()) (pv any, stack string) {
 				pv = "panic in a library goroutine"
 				stack = ps[0]
 			}
+			// the execution is over and its verdict taken: release whatever is still parked in a shim lock or in one
+			// of the vendored dependencies' escape points, so that the bubble can end (also after a diverged replay)
+			core.Abort()
 		}()
 		f()
 	})
